@@ -22,3 +22,16 @@ package svcb
 //@ loop 0 invariant[fwd] forall(j, 0, idx, haskey(seen, (*l)[j].keynum) && seen[(*l)[j].keynum] == j)
 //@ loop 0 invariant[bwd] forall(k, 0, 65536, haskey(seen, k) ==> 0 <= seen[k] && seen[k] < idx && (*l)[seen[k]].keynum == k)
 //@ loop 1 invariant[m] 0 <= bindex && bindex % 2 == 0 && mandatorylist == (*l)[seen[0]].value && haskey(seen, 0) && forall(b, 0, bindex / 2, haskey(seen, mandatorylist[2*b] * 256 + mandatorylist[2*b+1]))
+
+// The two comparators handed to sort.SliceStable (C18: keys are emitted in increasing numeric order). The
+// sorting itself is the assumed contract of the library; that it is asked to sort BY KEY NUMBER is checked here.
+//@ func ParamList.FromText@less
+//@ region funclit#0
+//@ flag skip frame
+//@ requires l != nil && 0 <= i && i < len(*l) && 0 <= j && j < len(*l)
+//@ ensures[bykey] result0 == ((*l)[i].keynum < (*l)[j].keynum)
+//@ func mandatoryMarshaller@less
+//@ region funclit#0
+//@ flag skip frame
+//@ requires 0 <= i && i < len(values) && 0 <= j && j < len(values)
+//@ ensures[bykey] result0 == (strToParamNum[string(values[i])] % 65536 < strToParamNum[string(values[j])] % 65536)
